@@ -28,6 +28,7 @@ for d in sorted(glob.glob(base + '/C*-*')):
                 check_exit_with_change=res.get('check_exit'), detected_by_quick_check=detected,
                 first_violation_lines=[v[1][:300] for v in viol[:3]],
                 other_checks_run_on_the_change=also,
+                detected_by=([name.split('-')[0]] if detected == 'yes' else []) + [k for k, v in also.items() if v == 'detected'],
                 first_attempt=h.get('first', 'detected' if detected == 'yes' else 'missed'),
                 comment=h.get('comment', ''))
     json.dump(meta, open(d + '/meta.json', 'w'), indent=1)
